@@ -112,7 +112,7 @@ class Effect:
 
 
 class State:
-    __slots__ = ("env", "atoms", "effects", "known", "known_not", "done", "result", "loops", "frames", "via_try", "loop_depth", "cut", "trace", "ret_loop_depth")
+    __slots__ = ("env", "atoms", "effects", "known", "known_not", "done", "result", "loops", "frames", "via_try", "loop_depth", "cut", "trace", "ret_loop_depth", "stored")
 
     def __init__(self):
         self.env = {}
@@ -129,6 +129,7 @@ class State:
         self.cut = False
         self.trace = ()            # loop events on this path: ('break', loop span) | ('iter', loop span)
         self.ret_loop_depth = 0    # loop nesting depth at which the function returned
+        self.stored = ()           # (frame, local) of every whole-local assignment made on the path
 
     def fork(self):
         s = State()
@@ -146,6 +147,7 @@ class State:
         s.cut = self.cut
         s.trace = self.trace
         s.ret_loop_depth = self.ret_loop_depth
+        s.stored = self.stored
         return s
 
 
@@ -182,6 +184,8 @@ class Sym:
         self.notes = []
         self.applying = 0
         self.closures = {}     # closure site -> (node, captured env, frames)
+        self.frame_call = {}   # frame id of an expanded helper -> (call node, helper)
+        self.frame_parent = {} # frame id of a closure body -> frame id of the function it is written in
         self.arith = {}        # span of a + - * node -> set of (op, left term, right term) seen on the paths
         self.indexed = {}      # span of an index node -> set of (length of the indexed array literal/constant or None, index term)
 
@@ -431,6 +435,8 @@ class Sym:
         fid = self.uid
         saved = st.frames
         st.frames = st.frames + ((fid, {"output": None, "path": "<closure>", "body": node["body"]}, tuple(cap_frames)),)
+        if cap_frames:
+            self.frame_parent[fid] = cap_frames[-1][0]
         states = [st]
         for p, a in zip(node.get("params", []), args):
             nxt = []
@@ -1045,25 +1051,51 @@ class Sym:
         # start of the iteration), ..)), and at the end of the iteration / at the exit ('iter' | 'break', loop, ((local id, value), ..)).
         carried = []
         lsite = self.site(n, st)
+        keys = []
         for x in H.walk(n["body"]):
             if x.get("k") in ("assign", "assignop") and x["l"].get("k") == "path":
                 lid = H.local_id(x["l"])
-                if lid is not None and (fid, lid) in st.env and lid not in [c[0] for c in carried]:
-                    lv = self.fresh("loop-var")
-                    carried.append((lid, x["l"]["res"].get("name"), st.env[(fid, lid)], lv))
-                    st.env[(fid, lid)] = lv
+                if lid is not None:
+                    for f2 in self.frame_chain(st):
+                        if (f2, lid) in st.env and (f2, lid) not in keys:
+                            keys.append((f2, lid))
+                            break
+        # locals assigned by code the body *calls* (an expanded helper's closure argument assigning to a captured local): found by
+        # running the body once on a scratch copy of the state, then treated like the syntactic ones
+        if any(x.get("k") in ("call", "mcall") for x in H.walk(n["body"])) and not getattr(self, "_discovering", False):
+            self._discovering = True
+            saved = (self.count,)
+            try:
+                probe = st.fork()
+                probe.stored = ()
+                for s2, _t in self.ev(n["body"], probe):
+                    for k2 in s2.stored:
+                        if k2 in st.env and k2 not in keys:
+                            keys.append(k2)
+            except TooManyPaths:
+                pass
+            finally:
+                self._discovering = False
+        names = {}
+        for x in H.walk(n["body"]):
+            if x.get("k") in ("assign", "assignop") and x["l"].get("k") == "path" and H.local_id(x["l"]) is not None:
+                names[H.local_id(x["l"])] = x["l"]["res"].get("name")
+        for key in keys:
+            lv = self.fresh("loop-var")
+            carried.append((key, names.get(key[1]), st.env[key], lv))
+            st.env[key] = lv
         st.trace = st.trace + (("enter", lsite, tuple(carried)),)
         st.loops += 1
         st.loop_depth += 1
         out = []
 
         def snapshot(s, leave):
-            snap = tuple((lid, s.env.get((fid, lid))) for lid, _n, _i, _lv in carried)
+            snap = tuple((key, s.env.get(key)) for key, _n, _i, _lv in carried)
             if not leave:
                 # the code after the loop is reached after any number of further iterations
-                for lid, _n, _i, lv in carried:
-                    if s.env.get((fid, lid)) != lv:
-                        s.env[(fid, lid)] = self.fresh("assigned-in-loop")
+                for key, _n, _i, lv in carried:
+                    if s.env.get(key) != lv:
+                        s.env[key] = self.fresh("assigned-in-loop")
             return snap
 
         for s, t in self.ev(n["body"], st):
@@ -1148,7 +1180,13 @@ class Sym:
         if self.is_effect("<assign>", [place, v], n, st):
             self.add_effect(st, "assign", "<assign>", [place, v], n, None)
         if lid is not None and n["l"].get("k") == "path":
+            # the frame the local lives in (a closure body assigns to locals of the function it is written in)
+            for f2 in self.frame_chain(st):
+                if (f2, lid) in st.env:
+                    fid = f2
+                    break
             st.env[(fid, lid)] = v if v is not None else self.fresh("assigned")
+            st.stored = st.stored + ((fid, lid),)
         elif tgt.get("k") == "field":
             # x.f.g = v : the local x now holds an updated value (only for values this function owns a copy of)
             chain = []
@@ -1213,6 +1251,13 @@ class Sym:
                         out.append((s, ("ctor", callee2, tuple(ts))))
                         continue
                     out.extend(self.do_call(n, callee2, n.get("callee"), ts, s))
+                elif ft[0] == "closure" and ft[1] in self.closures and self.applying <= 6:
+                    # a closure value called directly (`keep(x)` for a closure parameter of an expanded helper)
+                    self.applying += 1
+                    try:
+                        out.extend(self.inline_closure(ft, list(ts), s))
+                    finally:
+                        self.applying -= 1
                 else:
                     t = ("callv", ft, tuple(ts), n.get("sp"))
                     if self.is_effect("<indirect>", [ft] + ts, n, s):
@@ -1242,6 +1287,38 @@ class Sym:
             ex = self.expand_combinator(c, n, args, st)
             if ex is not None:
                 return ex
+        if callee and callee.endswith("::transpose") and callee.startswith(("core::result::Result::<", "core::option::Option::<")) and len(args) == 1:
+            # Result<Option<T>, E> <-> Option<Result<T, E>>
+            out = []
+            on_result = callee.startswith("core::result::")
+            outer_good, inner_good = (OK, SOME) if on_result else (SOME, OK)
+            for s1, g1 in self.test_variant(args[0], outer_good, st):
+                if on_result:
+                    if not g1:
+                        out.append((s1, ("ctor", SOME, (("ctor", ERR, (self.proj(args[0], ERR, 0),)),))))
+                        continue
+                    inner = self.proj(args[0], OK, 0)
+                    for s2, g2 in self.test_variant(inner, SOME, s1):
+                        out.append((s2, ("ctor", SOME, (("ctor", OK, (self.proj(inner, SOME, 0),)),)) if g2 else ("ctor", NONE, ())))
+                else:
+                    if not g1:
+                        out.append((s1, ("ctor", OK, (("ctor", NONE, ()),))))
+                        continue
+                    inner = self.proj(args[0], SOME, 0)
+                    for s2, g2 in self.test_variant(inner, OK, s1):
+                        out.append((s2, ("ctor", OK, (("ctor", SOME, (self.proj(inner, OK, 0),)),)) if g2 else ("ctor", ERR, (self.proj(inner, ERR, 0),))))
+            return out
+        if (trait_callee or callee) == "core::iter::traits::iterator::Iterator::next" and len(args) == 1 and self.applying <= 6:
+            it = args[0]
+            while it[0] == "call" and len(it[2]) == 1 and it[1].split("::")[-1] in ("into_iter", "by_ref", "borrow_mut", "deref_mut"):
+                it = it[2][0]
+            if it[0] == "call" and it[1] == "core::iter::sources::from_fn::from_fn" and len(it[2]) == 1 and it[2][0][0] == "closure" and it[2][0][1] in self.closures:
+                # core::iter::from_fn(f).next() is f()
+                self.applying += 1
+                try:
+                    return self.inline_closure(it[2][0], [], st)
+                finally:
+                    self.applying -= 1
         for c in (trait_callee, callee):
             if c in TESTS and args:
                 # a test used as a value: decided when known, otherwise opaque boolean
@@ -1345,6 +1422,7 @@ class Sym:
         self.uid += 1
         fid = self.uid
         self.inlined.add(fn["path"])
+        self.frame_call[fid] = (n, fn)
         s = st
         s.frames = s.frames + ((fid, fn),)
         states = [s]
@@ -1409,6 +1487,25 @@ class Sym:
                 continue
             out.extend(self.truth(t, s))
         return out
+
+    def type_arg(self, effect, ty):
+        """a type argument written inside an expanded generic helper (`T`), as instantiated by the call that was expanded"""
+        fid = effect.frame
+        for _ in range(6):
+            if fid in self.frame_call or fid not in self.frame_parent:
+                break
+            fid = self.frame_parent[fid]
+        fc = self.frame_call.get(fid)
+        for _ in range(4):
+            if fc is None or not re.match(r"^[A-Z]\w*$", ty or ""):
+                return ty
+            n, fn = fc
+            gen = [g["name"] for g in (fn.get("generics") or []) if g.get("kind") != "lifetime"]
+            ta = n.get("targs") or []
+            if len(gen) == len(ta) and ty in gen:
+                ty = ta[gen.index(ty)]
+            return ty
+        return ty
 
     def resolve(self, st, t):
         """t with the variant tests it contains decided by what is known on the path (a flag computed before the path split on
